@@ -489,7 +489,8 @@ def tool_level(ctx, shim):
                     main = main or pid
                     if "(INJECTED)" in line:
                         hit.add(pid)
-                where = "none" if not hit else "main-thread" if hit == {main} else "worker-thread" if main not in hit else "main-and-worker-threads"
+                # (per-thread counting can hit several threads; an error in the main thread is what the known defect needs)
+                where = "none" if not hit else "main-thread" if main in hit else "worker-thread"
         elif mode == "shimfail":
             rc = run_cmd(t.argv, w, t.stdin, t.stdout, timeout=timeout, env={"LD_PRELOAD": shim, "IO_SHIM_FAIL": "%s:%d:%s" % (sc, k, err), "IO_SHIM_FAIL_REPORT": os.path.join(w, "fail.report")})
             if rc == 124:
